@@ -914,6 +914,10 @@ void matrixSslDeleteSession(ssl_t *ssl)
         {
             psFree(ssl->sec.tls13CookieFromServer, ssl->hsPool);
         }
+        /* Still set when the handshake failed after CertificateVerify
+           was signed (tls13ClearHsTemporaryState not reached). */
+        psFree(ssl->sec.tls13CvSig, ssl->hsPool);
+        ssl->sec.tls13CvSig = NULL;
 
         psFree(ssl->tls13ClientCipherSuites, ssl->hsPool);
     }
